@@ -16,6 +16,12 @@ More of src/Bpp/Graph/AssociationTreeGraphImplObserver.h on the model of `BppMod
   (`getNodesFromGraphid` / `getEdgesFromGraphid` skip the ids that carry no object).
 -/
 namespace Bpp.Graph
+/-- after a successful removal of the relation `a -> b` (either way round when undirected): that relation is gone from
+the edge table and every other edge, and every node, is still there (the predicate `removes_relation` of the driver) -/
+def relationRemoved (before after : G) (a b : Nat) : Bool :=
+  let hit (e : Nat × Nat × Nat) : Bool := (e.2.1 == a && e.2.2 == b) || (!before.directed && e.2.1 == b && e.2.2 == a)
+  after.edges == before.edges.filter (fun e => !hit e) && AL.keys after.nodes == AL.keys before.nodes
+
 namespace TW
 
 /-- an operation of the base observer that does not touch the graph -/
